@@ -226,6 +226,16 @@ func sideState(s ref.Side) ws.State {
 }
 
 // C08: automatic control-frame replies.
+// c08State is the state value the application passes for side: the side bit,
+// sometimes with the further bits it keeps in the same value.
+func c08State(r *eng.Run, side ref.Side) ws.State {
+	extra := []ws.State{0, 0, ws.StateExtended, ws.StateFragmented}[r.T.Int(sim.LCfg, 4)]
+	if extra != 0 {
+		r.Probe("handler_state_with_further_bits")
+	}
+	return sideState(side) | extra
+}
+
 func C08(r *eng.Run) {
 	switch r.T.Int(sim.LEntry, 6) {
 	case 0:
@@ -260,6 +270,7 @@ func c08Direct(r *eng.Run) {
 	}
 	dst := NewPipe(r, nil)
 	h := ControlHandlerFor(side, src, dst, disable)
+	h.State = c08State(r, side)
 	r.Note("C08 ControlHandler.Handle side=%d disableSrcCiphering=%v frame=%s payload=%x seg=%d", side, disable, frameStr(f), head(f.Payload, 16), src.SegMode)
 	r.Res.Nontrivial = true
 	var err error
@@ -311,10 +322,10 @@ func c08FrameHandler(r *eng.Run) {
 		r.SetEntry("ControlFrameHandler")
 		src := NewPipe(r, append([]byte(nil), f.Payload...))
 		src.SegMode = SegTiny
-		err = wsutil.ControlFrameHandler(dst, sideState(side))(hdrOf(f), src)
+		err = wsutil.ControlFrameHandler(dst, c08State(r, side))(hdrOf(f), src)
 	case 1:
 		r.SetEntry("HandleControlMessage")
-		err = wsutil.HandleControlMessage(dst, sideState(side), wsutil.Message{OpCode: ws.OpCode(f.Op), Payload: append([]byte(nil), f.Payload...)})
+		err = wsutil.HandleControlMessage(dst, c08State(r, side), wsutil.Message{OpCode: ws.OpCode(f.Op), Payload: append([]byte(nil), f.Payload...)})
 	default:
 		r.SetEntry("HandleControlMessage.Side")
 		m := wsutil.Message{OpCode: ws.OpCode(f.Op), Payload: append([]byte(nil), f.Payload...)}
@@ -334,8 +345,8 @@ func c08FrameHandler(r *eng.Run) {
 // callbacks, ReadMessage+HandleControlMessage, or ReadData.
 func c08Stream(r *eng.Run) {
 	side := ref.Side(r.T.Int(sim.LSide, 2))
-	mode := r.T.Int(sim.LCfg, 3) // 0 Reader+ControlFrameHandler 1 ReadMessage+HandleControlMessage 2 ReadData
-	r.SetEntry([]string{"Reader+ControlFrameHandler", "ReadMessage+HandleControlMessage", "ReadData"}[mode])
+	mode := r.T.Int(sim.LCfg, 4) // 0 Reader+ControlFrameHandler 1 ReadMessage+HandleControlMessage 2 ReadData 3 a filtering ReadData variant that skips the data message
+	r.SetEntry([]string{"Reader+ControlFrameHandler", "ReadMessage+HandleControlMessage", "ReadData", "ReadData.filtered"}[mode])
 	// Stream: optional leading controls, a (maybe fragmented) message with
 	// controls between fragments, trailing controls; a close ends the stream.
 	var frames []*ref.Frame
@@ -436,10 +447,11 @@ func c08Stream(r *eng.Run) {
 		last = exps[len(exps)-1]
 	}
 	st := sideState(side)
+	hst := c08State(r, side) // what the application passes to the handlers
 	var termErr error
 	switch mode {
 	case 0:
-		h := wsutil.ControlFrameHandler(p, st)
+		h := wsutil.ControlFrameHandler(p, hst)
 		rd := &wsutil.Reader{Source: p, State: st, OnIntermediate: h}
 		buf := make([]byte, 64)
 	loop0:
@@ -477,7 +489,7 @@ func c08Stream(r *eng.Run) {
 			stop := false
 			for _, m := range msgs {
 				if m.OpCode.IsControl() {
-					if err := wsutil.HandleControlMessage(p, st, m); err != nil {
+					if err := wsutil.HandleControlMessage(p, hst, m); err != nil {
 						termErr = err
 						stop = true
 						break
@@ -495,6 +507,29 @@ func c08Stream(r *eng.Run) {
 				termErr = err
 				break
 			}
+		}
+	case 3:
+		// The application waits for the other kind of message: the one on the
+		// stream is skipped, the control frames around and inside it are
+		// answered all the same.
+		wantText := msg == nil || msg.Op != ref.OpText
+		for {
+			var err error
+			switch {
+			case side == ref.Server && wantText:
+				_, err = wsutil.ReadClientText(p)
+			case side == ref.Server:
+				_, err = wsutil.ReadClientBinary(p)
+			case wantText:
+				_, err = wsutil.ReadServerText(p)
+			default:
+				_, err = wsutil.ReadServerBinary(p)
+			}
+			if err != nil {
+				termErr = err
+				break
+			}
+			r.Failf("wrong_return", "%s: a message of the unwanted kind was returned", r.Entry())
 		}
 	}
 	what := fmt.Sprintf("%s side=%d", r.Entry(), side)
@@ -571,8 +606,22 @@ func c08ControlWriter(r *eng.Run) {
 		}
 		k := []int{0, 1, 25, 60, 100, 124, 125, 126, 130}[r.T.Int(sim.LLen, 9)]
 		data := patBytes(seed, pos, k)
-		hist = append(hist, fmt.Sprintf("Write(%d)", k))
-		m, err := cw.Write(data)
+		var (
+			m   int
+			err error
+		)
+		if r.T.Chance(sim.LHist, 1, 4) {
+			// The payload comes from a reader (io.Copy picks ReadFrom if the
+			// writer has one, else Write): same limit, same accounting.
+			hist = append(hist, fmt.Sprintf("io.Copy(%d)", k))
+			var m64 int64
+			m64, err = io.Copy(cw, struct{ io.Reader }{bytes.NewReader(data)})
+			m = int(m64)
+			r.Probe("control_writer_fed_through_io_copy")
+		} else {
+			hist = append(hist, fmt.Sprintf("Write(%d)", k))
+			m, err = cw.Write(data)
+		}
 		if err == nil && m != k {
 			r.Failf("short_write", "ControlWriter.Write(%d) returned %d, nil (history %v)", k, m, hist)
 		}
